@@ -156,3 +156,91 @@ def emit() -> str:
          "def uninstallBody : List Stmt := [\n  " + ",\n  ".join(stmts) + "]", "",
          "end Primaite.Gen.EpisodeRegs"]
     return "\n".join(L) + "\n"
+
+
+# ------------------------------------------------------------------------------------------------ SoftwareManager.install
+NEW = "software"
+WRITE_TARGETS = ("self.node.applications[software.uuid]", "self.node.services[software.uuid]", "self.software[software.name]",
+                 "self._software_class_to_name_map[software_class]", "self.port_protocol_mapping[software.port, software.protocol]",
+                 "self.port_protocol_mapping[(software.port, software.protocol)]")
+
+
+def _add_request_cannot_raise() -> bool:
+    fn = find_method(class_def(parse("simulator/core.py"), "RequestManager"), "add_request")
+    return not any(isinstance(n, (ast.Raise, ast.Assert)) for n in ast.walk(fn))
+
+
+def _install_write(st: ast.stmt) -> bool:
+    """a statement of `install` that cannot raise: dict item assignment, attribute assignment, logging, `add_request`, the lifecycle
+    calls `software.start()` / `software.install()` (their totality is C13's subject)"""
+    if _is_log(st):
+        return True
+    if isinstance(st, ast.Assign) and len(st.targets) == 1:
+        t = _u(st.targets[0])
+        if t in WRITE_TARGETS and _u(st.value) in (NEW, f"{NEW}.name"):
+            return True
+        if t in (f"{NEW}.parent", f"{NEW}.software_manager", f"{NEW}.operating_state") and not any(isinstance(n, ast.Call) for n in ast.walk(st.value)):
+            return True
+        return False
+    if isinstance(st, ast.Expr) and isinstance(st.value, ast.Call) and isinstance(st.value.func, ast.Attribute):
+        recv, meth = _u(st.value.func.value), st.value.func.attr
+        if recv in ROUTEREG and meth == "add_request":
+            return True
+        if recv == NEW and meth in ("start", "install") and not st.value.args and not st.value.keywords:
+            return True
+    return False
+
+
+def translate_install() -> List[str]:
+    fn = find_method(class_def(parse(SRC), "SoftwareManager"), "install")
+    body = list(fn.body)
+    if body and isinstance(body[0], ast.Expr) and isinstance(body[0].value, ast.Constant) and isinstance(body[0].value.value, str):
+        body = body[1:]
+    if not _add_request_cannot_raise():
+        raise ValueError("RequestManager.add_request can raise now: SoftwareManager.install is no longer total by construction")
+    out: List[str] = []
+    for st in body:
+        src = _u(st)
+        if isinstance(st, ast.If) and _u(st.test) == "software_class in self._software_class_to_name_map and software_config is None" \
+                and not st.orelse and isinstance(st.body[-1], ast.Return) and st.body[-1].value is None and all(_is_log(x) for x in st.body[:-1]):
+            out.append(".guardRefused")
+        elif isinstance(st, ast.If) and _u(st.test) == "software_config is None" and len(st.body) == 1 and len(st.orelse) == 1 and \
+                all(isinstance(x, ast.Assign) and _u(x.targets[0]) == NEW and isinstance(x.value, ast.Call) and _u(x.value.func) == "software_class"
+                    for x in (st.body[0], st.orelse[0])):
+            out.append(".construct")
+        elif isinstance(st, ast.If) and _u(st.test) == f"{NEW}.name in self.software" and not st.orelse and \
+                _u(st.body[-1]) == f"self.uninstall({NEW}.name)" and all(_is_log(x) for x in st.body[:-1]):
+            out.append(".evictIfInstalled")
+        elif isinstance(st, ast.If) and _isinstance_of(st.test) in ("Application", "Service"):
+            branches = [st.body]
+            o = st.orelse
+            while o:
+                if len(o) == 1 and isinstance(o[0], ast.If) and _isinstance_of(o[0].test) in ("Application", "Service"):
+                    branches.append(o[0].body)
+                    o = o[0].orelse
+                else:
+                    raise ValueError(f"SoftwareManager.install: unrecognised else-branch: {_u(o[0])[:120]}")
+            for b in branches:
+                for x in b:
+                    if not _install_write(x):
+                        raise ValueError(f"SoftwareManager.install: statement that may raise inside an isinstance branch: {_u(x)[:120]}")
+            out.append(".write")
+        elif _install_write(st):
+            out.append(".write")
+        elif isinstance(st, ast.Return) and st.value is None:
+            out.append(".ret")
+        else:
+            raise ValueError(f"SoftwareManager.install: unrecognised statement (may raise): {src[:160]}")
+    return out
+
+
+_emit_uninstall = emit
+
+
+def emit() -> str:      # noqa: F811
+    text = _emit_uninstall()
+    inst = translate_install()
+    add = ["/-- `SoftwareManager.install`: one constructor per statement; `.write` = a statement recognised as unable to raise (dict item /",
+           "attribute assignment, logging, `add_request` - whose body has no `raise` -, `software.start()` / `software.install()`) -/",
+           "def installBody : List IStmt := [" + ", ".join(inst) + "]", ""]
+    return text.replace("end Primaite.Gen.EpisodeRegs", "\n".join(add) + "\nend Primaite.Gen.EpisodeRegs")
